@@ -98,7 +98,7 @@ def run_unit(unit_path, repo=None, rlimit=None, seed=None, threads=4, twins=Fals
     for label, c in g.clauses.items():
         res.obligations[label] = {'kind': c['kind'], 'tags': c['tags'], 'fn': c['fn'], 'text': c['expr'], 'unit': name}
     for f in g.functions:
-        if f['kind'] == 'fn' and f.get('has_body') and not f.get('external_body'):
+        if f['kind'] == 'fn' and f.get('has_body') and not f.get('external_body') and not f.get('included_from'):
             res.obligations['implicit:' + f['name']] = {'kind': 'implicit', 'tags': sorted(set(['C13'] + f['props'])), 'fn': f['name'],
                                                          'text': 'panic-freedom of %s: overflow, bounds, char boundaries, unwrap/expect, callee preconditions, termination' % f['name'],
                                                          'unit': name}
@@ -120,7 +120,10 @@ def run_unit(unit_path, repo=None, rlimit=None, seed=None, threads=4, twins=Fals
         labels = []
         prim_fn = None
         for sp in spans:
-            for ln in range(sp['line_start'], sp['line_end'] + 1):
+            if not sp.get('is_primary') and (sp.get('label') or '').startswith('at the end of') or (sp.get('label') or '').startswith('at this exit'):
+                pass
+            else:
+              for ln in range(sp['line_start'], sp['line_end'] + 1):
                 if ln in g.line_label:
                     labels.append(g.line_label[ln])
             if sp.get('is_primary'):
